@@ -13,6 +13,7 @@ returns a shape tag and a message.
                                      the lexicographic order on those)
   rank-order / rank-pick             the job goes to a free worker of minimal score
   hard-timeout-ignored               a result processed after the hard deadline ends the batch
+  idle-timeout-despite-progress      an idle timeout only a full ProgressTimeout after the last successful result
   request-never-issued-with-peer-available
                                      at rest, no request of a live batch waits while a connected peer is free
 -/
@@ -34,6 +35,9 @@ inductive Obs where
   | resultDone                                -- the dispatcher has finished processing the last reported result
   | connected (p : Nat)                       -- a peer with address p was handed to the work manager
   | quiescent                                 -- every earlier event has been fully processed, every offered job taken
+  | progBatch (b : Nat)                       -- batch b was submitted with a ProgressTimeout
+  | wake (b g : Nat)                          -- the idle timer armed for b's g-th idle window fired (window 1 starts at
+                                              -- submission, window k+1 at the k-th successful result of the batch)
 deriving Repr
 
 structure OSt where
@@ -48,6 +52,8 @@ structure OSt where
   hardDue   : List Nat := []          -- batches whose hard deadline has passed
   lastRes   : Option Nat := none      -- batch of the job whose result was reported last
   conn      : List Nat := []          -- addresses of the peers that are connected (their worker has not exited)
+  prog      : List Nat := []          -- batches with a ProgressTimeout
+  lastWake  : Option (Nat × Nat) := none
 deriving Repr
 
 def reqLt (a b : Req) : Bool := a.1 < b.1 || (a.1 == b.1 && a.2 < b.2)
@@ -69,8 +75,22 @@ def obsStep (o : OSt) : Obs → OSt × List Fail
   | .submitted b n =>
     ({ o with subs := o.subs ++ [(b, n)],
               queued := if o.quit then o.queued else o.queued ++ rangeReqs b n }, [])
+  | .progBatch b => ({ o with prog := b :: o.prog }, [])
+  | .wake b g => ({ o with lastWake := some (b, g) }, [])
   | .verdict b v =>
-    let f1 : List Fail := if hasVerdict o b then
+    -- "a batch fails with an idle timeout only if no request finished within the window": in the driver's clock
+    -- the timer of window g fires a full ProgressTimeout after window g began and the current window's own timer
+    -- never fires by itself, so a timeout verdict caused by the wake of an EARLIER window comes less than a
+    -- ProgressTimeout after the batch's last successful result
+    let f0 : List Fail :=
+      match o.lastWake with
+      | some (wb, g) =>
+        let cur := if o.prog.contains b then 1 + (o.okReq.filter (fun r => r.1 == b)).length else 0
+        if wb == b && v == .res .timeout && g != cur then
+          [("idle-timeout-despite-progress", s!"batch {b} got an idle timeout from the timer of window {g} although it has made progress since (current window {cur})")]
+        else []
+      | none => []
+    let f1 : List Fail := f0 ++ if hasVerdict o b then
       [("double-verdict", s!"batch {b} received a second verdict")] else []
     let n := ((o.subs.find? (fun x => x.1 == b)).map (·.2)).getD 0
     let f2 : List Fail := if v == .res .ok && !(rangeReqs b n).all (fun r => o.okReq.contains r) then
@@ -88,6 +108,7 @@ def obsStep (o : OSt) : Obs → OSt × List Fail
     ({ o with conn := p :: o.conn.filter (fun x => !(x == p)),
               held := o.held.filter (fun x => !(x.1 == p)) }, [])
   | .quiescent =>
+    let o := { o with lastWake := none }
     -- "unanswered requests are re-issued to an available peer": with the dispatcher at rest, a request of a
     -- live batch is never left waiting while a connected peer holds no job
     if o.quit then (o, []) else
@@ -169,23 +190,27 @@ of every later batch, submitted while every peer answers promptly; whether
 `Stop` returned; how many verdicts each result channel delivered in total. -/
 
 inductive RObs where
-  | batch (i : Nat) (kind : String) (verdict : Option Verdict) (fin n : Nat)   -- `none` = no verdict before the deadline
+  | batch (i : Nat) (kind : String) (verdict : Option Verdict) (fin n : Nat) (gap pt : Nat)
+      -- `none` = no verdict before the deadline; gap = µs between the batch's last successful response (or its
+      -- submission) and the verdict; pt = its ProgressTimeout in µs (0: none, or a short hard Timeout is also set)
   | stop (returned : Bool)
   | peerNotTaken
   | final (counts : List (Nat × Nat))
 deriving Repr
 
 def realStep : RObs → List Fail
-  | .batch i kind none _ _ =>
+  | .batch i kind none _ _ _ _ =>
     if i ≥ 2 then [("later-batch-starved", s!"batch {i}, submitted after an earlier batch had ended and with every peer answering, got no verdict before its deadline")]
     else if kind == "reconnect" then
       [("request-never-issued-with-peer-available", s!"batch {i} got no verdict: its requests were never served although peers had (re)connected")]
     else if kind == "failonly" || kind == "hard" then
       [("hard-timeout-ignored", s!"batch {i} ({kind}) got no verdict although results kept arriving after its hard deadline")]
     else [("batch-never-ended", s!"batch {i} got no verdict although its timeout / cancellation had passed")]
-  | .batch i _ (some v) fin n =>
-    if v == .res .ok && fin < n then
-      [("nil-without-all-ok", s!"batch {i} reported success with {fin} of {n} requests answered")] else []
+  | .batch i _ (some v) fin n gap pt =>
+    (if v == .res .ok && fin < n then
+      [("nil-without-all-ok", s!"batch {i} reported success with {fin} of {n} requests answered")] else []) ++
+    (if v == .res .timeout && pt > 0 && gap < pt then
+      [("idle-timeout-despite-progress", s!"batch {i} got an idle timeout {gap} µs after its last successful response, ProgressTimeout is {pt} µs")] else [])
   | .stop false => [("shutdown-blocked", "Stop did not return")]
   | .stop true => []
   | .peerNotTaken => [("hang", "the dispatcher did not take a newly connected peer")]
